@@ -424,6 +424,12 @@ type InvDef struct {
 	Pkg  string
 }
 
+// GuardDef: field Field of struct Struct (package Pkg) may only be read while the mutex in field Lock of the same struct
+// is held (read or write mode) and only be written while it is held in write mode.
+type GuardDef struct {
+	Struct, Field, Lock, Pkg string
+}
+
 type LoopSpec struct {
 	Invariants []Clause
 	Assumes    []Clause // assumed (never checked) at the loop head; reported as an assumption in the evidence
@@ -464,6 +470,7 @@ type FuncSpec struct {
 	Requires []Clause
 	Ensures  []Clause
 	Modifies []Expr
+	LocksHeld bool // 'locks held': the function may return with a different lock state (no lock.balanced obligation)
 	Preserves []Clause // closures: an invariant over the captured variables that every invocation keeps (assumed at entry, proved at every return); a caller that hands the closure to a callback proves it before the call and may assume it afterwards
 	Captures []Clause // closures: facts about the captured variables, proved where the closure is created, assumed at its entry
 	Interference []Expr // locations other goroutines may change while this one blocks on a channel operation
@@ -496,6 +503,7 @@ type ContractFile struct {
 	Specs   []*SpecFunc
 	Lemmas  []*Lemma
 	Invs    []*InvDef
+	Guards  []*GuardDef // guarded Struct.field by lockfield
 	ChanInvs []*InvDef // chaninv Struct.field(v): expr -- Type is "Struct.field"
 	Funcs   []*FuncSpec
 	Ghosts  []*GhostDecl
@@ -652,8 +660,8 @@ func parseExprList(s string) ([]Expr, error) {
 }
 
 var clauseKeywords = map[string]bool{"requires": true, "ensures": true, "modifies": true, "panics": true, "pure": true,
-	"decreases": true, "hint": true, "loop": true, "at": true, "params": true, "nopanic": true, "maypanic": true, "allocates": true, "ghost": true, "interference": true, "captures": true, "preserves": true}
-var itemKeywords = map[string]bool{"const": true, "spec": true, "lemma": true, "inv": true, "chaninv": true, "invexports": true, "ghost": true, "iface": true,
+	"decreases": true, "hint": true, "loop": true, "at": true, "params": true, "nopanic": true, "maypanic": true, "allocates": true, "ghost": true, "interference": true, "captures": true, "preserves": true, "locks": true}
+var itemKeywords = map[string]bool{"const": true, "spec": true, "lemma": true, "inv": true, "chaninv": true, "guarded": true, "invexports": true, "ghost": true, "iface": true,
 	"funcfield": true, "func": true, "viewfunc": true, "trusted": true, "package": true, "opaque": true}
 
 // logicalLines joins continuation lines: a line that does not start with a
@@ -808,6 +816,16 @@ func ParseContractFile(path string, pkgPath string) (*ContractFile, error) {
 			cf.Invs = append(cf.Invs, &InvDef{Type: hf[0], Name: hf[1][:i], Var: strings.TrimSuffix(hf[1][i+1:], ")"), Body: b, Pkg: cf.Pkg, Abstract: abstract})
 			cur, curLemma = nil, nil
 			continue
+		case "guarded":
+			// guarded Struct.field by lockfield
+			f := strings.Fields(rest)
+			if len(f) != 3 || f[1] != "by" || !strings.Contains(f[0], ".") {
+				return nil, fail(l, fmt.Errorf("guarded Struct.field by lockfield"))
+			}
+			k := strings.LastIndex(f[0], ".")
+			cf.Guards = append(cf.Guards, &GuardDef{Struct: f[0][:k], Field: f[0][k+1:], Lock: f[2], Pkg: cf.Pkg})
+			cur, curLemma = nil, nil
+			continue
 		case "chaninv":
 			// chaninv Struct.field(v): expr -- every value sent on the channel held in that field satisfies expr
 			// (obligation at each send), so every value received from it does (assumed at each receive)
@@ -950,6 +968,11 @@ func ParseContractFile(path string, pkgPath string) (*ContractFile, error) {
 				return nil, fail(l, err)
 			}
 			cur.Modifies = append(cur.Modifies, es...)
+		case "locks":
+			if strings.TrimSpace(rest) != "held" {
+				return nil, fail(l, fmt.Errorf("locks held"))
+			}
+			cur.LocksHeld = true
 		case "preserves":
 			c, err := parseClause(rest)
 			if err != nil {
